@@ -67,6 +67,30 @@ CHECKS = {
           "AudioIO/AudioThread run unmodified on real threads of which exactly one holds the baton; the generated schedule chooses the next thread at every lock/event/thread operation and backend call (quick: 6000 + 1500 line-level schedules; thorough: 60000 + 30000), for 1-3 players (finite and endless audio), pause/play/stop/spawn histories, close / with / terminate, wait on/off. Safety: chunks of exactly chunk_size frames concatenating to a prefix (the whole, if never stopped and waited) of the zero-padded audio. Shutdown: close returns under every explored schedule (a hang is a detected deadlock state or a step-bound overrun, not a timeout), streams closed once, backend terminated once, no live player, play raises. Bounded, sampled exploration of schedules.",
           "Fake backend and scheduler-aware Lock/Event replace pyaudio/_portaudio and lazy_io.threading from outside; line (not bytecode) granularity; bounded liveness (20000 steps); fair continuation after the generated schedule is used up; control calls come from the main thread only.", "3/C17"),
 }
+
+# sentences appended to the level text: what the three seeding rounds added (DESIGN 7.3)
+ADDENDA = {
+  "C01": " After seeding: finite constant Streams as operands, None among the elements for ==/!=, operand_kept (building a result from a constant Stream or ControlStream leaves the operand yielding its value), a non-commutative element class, every broadcast element bit-identical to the scalar call.",
+  "C02": " After seeding: a Stream as attack sustain level, Streamix rows with fractional float deltas.",
+  "C03": " After seeding: finite constant streams over itertools.repeat, thub on named non-iterables.",
+  "C04": " After seeding: exact_twins (plain Fraction / beyond-2**53 integer coefficients must stay exact, also right after a float-spelled twin ran), long_filters (60-300 taps), complex_coefficients incl. modulus 1, the memory list rewritten after the call, second call of one filter object.",
+  "C05": " After seeding: term-order routes for ==/hash, in-place replacement of Cascade/Parallel members after first use, non-list member containers and nesting, linearize, long_filters (34-46 plain-Fraction terms).",
+  "C06": " After seeding: read counters checked after the call and after every output, user-made thub coefficients (hub_reuse), division by a delayed Stream gain, filters hashed before use, finite-repeat and plain-Fraction coefficient streams, all three routes in algebra, Stream-denominator filter plus FIR / plus number.",
+  "C07": " After seeding: integer-valued float powers, interpolators first called on float/int spellings of the abscissae, polynomials changed item by item after evaluation, source mappings modified after construction, long_polynomials (34-46 plain-Fraction terms).",
+  "C08": " After seeding: the Stream mapped/appended in place between blocks() and the first read, tuple/deque inputs, positional size/hop/pad; atheris tier in thorough.",
+  "C09": " After seeding: one processor called again with another window of the same size, window functions handing out their own list, ola_ option names sharing letters with the prefix, sibling partials, falsy func/before/after objects, own ola_hop, explicit None options.",
+  "C10": " After seeding: kautocor blocks scaled from 2**-40 to 1e6, blocks as list/tuple/deque/deque(maxlen), large_tables (100-260 samples, lags 6-16).",
+  "C11": " After seeding: plain Fraction coefficients besides Q, levinson_durbin called first with an order beyond the lags (input unchanged), exact roots at 1 +- 1e-13 and 1 - 2**-60, gains g with g*(1/g) != 1.",
+  "C12": " After seeding: list members replaced in place after the first response, Fraction gains, FIR filters of 66-90 taps, repeated (identical-object) members.",
+  "C13": " After seeding: another default strategy set on the comb dictionary during a named call, klapuri with plain lists/tuples, an earlier gammatone result modified in place before the second call.",
+  "C14": " After seeding: sizes around 512..8192 in the quick tier, default strategies of window / wsymm obey the contracts and correspond.",
+  "C15": " After seeding: bound methods fetched anew (equal, not identical) and falsy callables as strategy values, names shadowing dict methods; atheris tier in thorough.",
+  "C16": " After seeding: the ControlStream's own reference released, keep changed at run time, events that add the next event from inside the summation, shared_source (several events over one iterator).",
+  "C17": " After seeding: chunk packing strategy chosen through chunks.default, default chunk size, with-block left by an exception, players playing recordings of the same manager, several recordings closed together.",
+  "C18": " After seeding: array.array and tuple inputs, long WAV files around multiples of 4096 bytes; atheris tier in thorough.",
+  "C19": " After seeding: TableLookup .table/.cycles re-assigned after playing, derived tables and normalize(), modcount_long (modulo/step ratios 700-4097 over thousands of samples).",
+  "C20": " After seeding: one maverage strategy object on two signals read alternately, envelope cut-offs at the ends of the range given by position or keyword, unwrap with every combination of defaulted parameters.",
+}
 NOT_BUILT = "check not built yet in this session (planned in DESIGN.md section 3); no claim is made until it is"
 
 def main():
@@ -82,7 +106,7 @@ def main():
       "evidence_file": "/verif/evidence/%s.json" % pid,
       "replay_cmd_template": "./check %s --replay {path}" % pid,
       "engine": "pbt-runner",
-      "level_claimed": {"category": "exploration", "text": text, "design_ref": "DESIGN.md section " + ref},
+      "level_claimed": {"category": "exploration", "text": text + ADDENDA.get(pid, ""), "design_ref": "DESIGN.md section " + ref},
       "level_note": note,
       "technique": tech,
     })
